@@ -55,12 +55,13 @@ class Gen:
     def __init__(self, rng, profile="py", tag_calls=False, max_ops=12, nphases=None, allow_end=True,
                  weird_names=True, persistent_arrays=True, multi_result=True, persist_tag="",
                  readonly_state=(), advance_time=True, phase_plan=None, components=None, funcs=None,
-                 ifexpr=True, call_bias=0.0, counters=None, extra_locals=(), containers=False, lookups=False, shadow_funcs=False):
+                 ifexpr=True, call_bias=0.0, counters=None, extra_locals=(), containers=False, lookups=False, shadow_funcs=False, local_time_bias=0.25):
         self.shadow_funcs = shadow_funcs
         self.containers = containers
         self.lookups = lookups
         self.ifexpr = ifexpr
         self.call_bias = call_bias
+        self.local_time_bias = local_time_bias
         self.counters = list(counters or COUNTERS)
         self.extra_locals = list(extra_locals)
         self.persist_tag = persist_tag
@@ -783,7 +784,7 @@ class Gen:
         time = rng.choice([["var", "<t>"], ["+", ["var", "<t>"], ["var", "<dt>"]], ["num", 0],
                            ["*", ["num", 0.5], ["var", "<dt>"]]])
         locs = [n for n in sc.nums if not n.startswith("<") and not n.startswith("$")]
-        if locs and rng.random() < 0.25:
+        if locs and rng.random() < self.local_time_bias:
             # the time of the yield is held in a per-step temporary ('t_out <- <t> + <dt>/2; yield ... at t_out')
             time = ["var", rng.choice(locs)] if rng.random() < 0.6 else ["+", ["var", "<t>"], ["var", rng.choice(locs)]]
         return ["yield", expr, rng.choice(self.components), time, rng.choice(["final", "t0", "mid_1"]),
